@@ -259,10 +259,16 @@ func (g Gateway) Set(ctx context.Context, in *hydrapb.SetRequest) (*hydrapb.SetR
 				internalError = err
 				return
 			}
+			if verifhook.Enabled {
+				verifhook.Point("gw.set.summoned", swampRequest.SwampName)
+			}
 
 			// begin the vigil, to prevent the close of the swamp
 			swampInterface.BeginVigil()
 			defer swampInterface.CeaseVigil()
+			if verifhook.Enabled {
+				verifhook.Point("gw.set.vigil", swampRequest.SwampName)
+			}
 
 			response := make([]*hydrapb.KeyStatusPair, 0)
 
